@@ -259,6 +259,20 @@ def proof_status(prop_file: str, build: BuildStatus) -> ProofStatus:
     return ProofStatus(prop_file, theorems, len(theorems), discharged, assumptions, sorted(set(axioms)), broken, checker_cmd, out)
 
 
+def coqchk(prop_file: str) -> Dict[str, Any]:
+    """Independent re-check of the compiled property file and everything it depends on (thorough tier):
+    `coqchk -o` prints the axioms the checked library set relies on."""
+    mod = "FV." + prop_file[:-2].replace("/", ".")
+    t0 = time.time()
+    try:
+        r = _run(["timeout", "1500", "coqchk", "-silent", "-o", "-Q", ".", "FV", mod], cwd=COQ, timeout=1600)
+    except subprocess.TimeoutExpired:
+        return {"ok": False, "output": "coqchk timed out", "wall_s": round(time.time() - t0, 1)}
+    out = r.stdout.strip()
+    tail = out[-1500:]
+    return {"ok": r.returncode == 0, "cmd": f"cd {COQ} && coqchk -silent -o -Q . FV {mod}", "output_tail": tail, "wall_s": round(time.time() - t0, 1)}
+
+
 def _first_failing_name(vfile: str, err: str) -> str:
     m = re.match(r"line (\d+):", err)
     if not m:
@@ -387,6 +401,10 @@ def finish(pid: str, tier: str, seed: int, t0: float, ps: Optional[ProofStatus],
         "build_wall_s": round(build.wall_s, 1),
     }
     if ps is not None:
+        if tier == "thorough" and ps.broken is None and os.environ.get("FV_NO_COQCHK") != "1":
+            cov["coqchk"] = coqchk(ps.file)
+            if not cov["coqchk"].get("ok"):
+                log("  coqchk did not succeed: " + str(cov["coqchk"].get("output_tail", ""))[-300:])
         cov.update({
             "obligations": ps.obligations,
             "discharged": ps.discharged,
